@@ -988,3 +988,67 @@ Proof.
     destruct (In_nth _ _ TDone Hin) as [i [Hi Hx]].
     destruct (is_live x) eqn:LX; auto. exfalso. apply (NL i). unfold st_of. rewrite Hx. exact LX.
 Qed.
+
+(* ------------------------------------------------------------------ conservation law of the settle step *)
+(* One "send a continuation" step of the settling worker (both protocols, whenever it is enabled): the head
+   continuation k leaves p's list and arrives exactly once in {task queue, fallback goroutines}; every other
+   task's count there, every other continuation list, the workers and the task statuses are untouched. *)
+Lemma settle_send_conserves : forall c s w p k rest s',
+  nth_error (s_ws s) w = Some (WSettle p) -> conts_of s p = k :: rest ->
+  step_fn c s (AWorker w) = Some s' ->
+  conts_of s' p = rest /\
+  (forall q, q <> p -> conts_of s' q = conts_of s q) /\
+  s_ws s' = s_ws s /\ s_st s' = s_st s /\
+  (forall t, cnt t (s_queue s') + cnt t (s_ovf s') = cnt t (s_queue s) + cnt t (s_ovf s) + cnt t [k]).
+Proof.
+  intros c s w p k rest s' HW HC HS.
+  simpl in HS. unfold step_worker in HS. rewrite HW, HC in HS.
+  destruct (enq_fields _ _ _ _ HS) as (_ & _ & Est & Ecs & Ews & _ & _ & _ & Eq).
+  simpl in Est, Ecs, Ews.
+  pose proof (nth_nonnil_error _ _ _ _ HC) as HE. apply nth_error_lt in HE.
+  repeat split; auto.
+  - unfold conts_of. rewrite Ecs. apply nth_upd_same. exact HE.
+  - intros q Hq. unfold conts_of. rewrite Ecs. apply nth_upd_other. exact Hq.
+  - intro t. simpl in Eq. destruct Eq as [(E1 & E2 & _) | (E1 & E2 & _)]; rewrite E1, E2, ?cnt_app; lia.
+Qed.
+
+(* state form: once the settlement of p is over (p settled, no worker is draining its list) no continuation is
+   left on p, and every started, unsettled task sits in exactly one of: task queue, fallback goroutine, a worker,
+   or the continuation list of a promise (which by the first part is unsettled or still being drained) *)
+Lemma settled_conts_conserved : forall c s, reachable c s ->
+  (forall p, is_done (st_of s p) = true -> ~ In (WSettle p) (s_ws s) -> conts_of s p = []) /\
+  (forall t, is_live (st_of s t) = true ->
+     cnt t (s_queue s) + cnt t (s_ovf s) + on_worker s t + cnt t (concat (s_conts s)) = 1).
+Proof.
+  intros c s R. apply inv_reachable in R. destruct R as [_ P _ Hc _ _]. split.
+  - intros p D NW. destruct (conts_of s p) as [| t r] eqn:E; auto. exfalso.
+    destruct (Hc p t) as [H | H].
+    + rewrite E. left. reflexivity.
+    + congruence.
+    + auto.
+  - intros t L. specialize (P t). unfold occ, live1, on_worker in *. rewrite L in P. lia.
+Qed.
+
+(* the "skip one" batched fallback (Model: step_fn_skip) breaks both: N = 1, Q = 1, a well-formed 3-task program,
+   a run after which task 0 is started, unsettled and in no place at all; the runtime is quiescent with the
+   main thread still waiting, so the program hangs although every task body is finite *)
+Lemma skip_one_witness : exists c sched s,
+  c_N c = 1 /\ c_Q c = 1 /\ wf c = true /\ run_skip c sched (init c) = Some s /\
+  is_live (st_of s 0) = true /\ occ s 0 = 0 /\
+  (forall p, conts_of s p = []) /\ is_done (st_of s 1) = true /\
+  nth 0 (s_parks s) 0 = 1 /\ nth 0 (s_takes s) 0 = 1 /\
+  enabled_skip c s = [] /\ quiescent c s = true /\ main_done c s = false.
+Proof.
+  exists skip_cfg, skip_sched.
+  destruct (run_skip skip_cfg skip_sched (init skip_cfg)) as [s |] eqn:E; [| vm_compute in E; discriminate].
+  exists s. vm_compute in E. inversion E; subst.
+  repeat split; try (vm_compute; reflexivity).
+  intro p. destruct p as [| [| [| p]]]; vm_compute; try reflexivity. destruct p; reflexivity.
+Qed.
+
+(* the same schedule under the Fixed protocol keeps task 0 (in a fallback goroutine), and running on terminates *)
+Lemma skip_sched_fixed_ok :
+  let c := skip_cfg in
+  (exists s, run c skip_sched (init c) = Some s /\ occ s 0 = 1 /\ s_ovf s = [0]) /\
+  let s := run_first c 200 (init c) in main_done c s = true /\ all_tasks_done s = true.
+Proof. split; [eexists; vm_compute; repeat split; reflexivity | vm_compute; split; reflexivity]. Qed.
